@@ -170,6 +170,10 @@ def _generic_plan_candidates(plan):
     def walk(node, path):
         if isinstance(node, dict):
             for k in node:
+                # simulator knobs are not part of the scenario
+                if not path and k in ('profile', 'drbg'):
+                    continue
+
                 walk(node[k], path + [k])
         elif isinstance(node, list):
             paths.append(('list', path, len(node)))
